@@ -370,7 +370,11 @@ class HostInterp:
         if isinstance(st, ast.Try):
             try:
                 try:
-                    self.block(st.body, env)
+                    self._try_depth = getattr(self, "_try_depth", 0) + 1
+                    try:
+                        self.block(st.body, env)
+                    finally:
+                        self._try_depth -= 1
                 except (KeyError, IndexError, AttributeError, TypeError, ValueError, StopIteration) as hx:
                     # an exception of the host data structures the interpreted code works on
                     handled = False
@@ -891,10 +895,14 @@ class HostInterp:
             try:
                 return fn(*args, **kwargs)
             except (TypeError, ValueError, KeyError, IndexError) as ex:
+                if getattr(self, "_try_depth", 0):
+                    raise  # inside an interpreted `try`: the handlers of the program decide
                 raise AnalysisError(f"interpretation: {d or fn} failed on abstract values: {type(ex).__name__}: {ex}")
         if fn in SAFE_BUILTINS.values() or (callable(fn) and getattr(fn, "__self__", None) is not None and isinstance(fn.__self__, self.host_types + (_re.Match, _re.Pattern))) or getattr(fn, "__module__", None) in ("re", "textwrap", "itertools", "functools", "math", "copy", "operator", "_operator", "typing"):
             try:
                 return fn(*args, **kwargs)
             except (TypeError, ValueError, KeyError, IndexError) as ex:
+                if getattr(self, "_try_depth", 0):
+                    raise  # inside an interpreted `try`: the handlers of the program decide
                 raise AnalysisError(f"interpretation: {d or fn} failed on abstract values: {type(ex).__name__}: {ex}")
         raise AnalysisError(f"rewriter interpretation: call of {d or type(fn).__name__} is not supported")
